@@ -672,6 +672,10 @@ class Data(Field):
 
                 elif isinstance(self.byte_count, Field):
                     byte_count = getattr(pkt, self.byte_count.field_name)
+                    if isinstance(byte_count, Any):
+                        # the field that says how many bytes is a placeholder
+                        # too: the amount of bytes is not known
+                        byte_count = None
 
                 elif callable(self.byte_count):
                     try:
